@@ -200,6 +200,12 @@ func c04RunCase(sig *c04Signal, c c04Case) (string, string) {
 			}
 		}
 	}
+	if c.Fat == c04Blank {
+		if len(got) != len(want) {
+			return "item-count-differs:" + key, fmt.Sprintf("%d items without content entered, %d left", len(want), len(got))
+		}
+		return "", ""
+	}
 	sort.Strings(want)
 	sort.Strings(got)
 	if strings.Join(want, "\n") != strings.Join(got, "\n") {
@@ -247,13 +253,20 @@ func c04RunCase(sig *c04Signal, c c04Case) (string, string) {
 	return "", ""
 }
 
-func c04ByteLadder(sig *c04Signal, shapes []c04Shape) []int {
+func c04ByteLadder(sig *c04Signal, shapes []c04Shape) []int { return c04ByteLadderF(sig, shapes, 0) }
+
+// c04Blank as the `fat` argument of Build: the items carry NOTHING (no id, no value, no attribute): their own encoding is
+// empty, they cost only the two framing bytes of a repeated-field element. Such cases are judged by the size bound and by
+// item COUNT (there is no identity to compare).
+const c04Blank = -1
+
+func c04ByteLadderF(sig *c04Signal, shapes []c04Shape, fat int) []int {
 	// sizes derived from the payload itself: the whole, halves, and the single-item request sizes +-1
 	ctr := 0
 	set := map[int]bool{}
 	total := 0
 	for _, sh := range shapes {
-		r, _ := sig.Build(sh, &ctr, 0)
+		r, _ := sig.Build(sh, &ctr, fat)
 		_, _, _, b := sig.Observe(r)
 		total += b
 	}
@@ -267,7 +280,7 @@ func c04ByteLadder(sig *c04Signal, shapes []c04Shape) []int {
 	if sig.Levels == 3 {
 		one = c04Shape{{{1}}}
 	}
-	r, _ := sig.Build(one, &ctr, 0)
+	r, _ := sig.Build(one, &ctr, fat)
 	_, _, _, b1 := sig.Observe(r)
 	for _, v := range []int{b1 - 1, b1, b1 + 1, 2 * b1, 2*b1 + 3} {
 		if v > 0 {
@@ -390,6 +403,12 @@ func c04Main(t *testing.T, unit string, signals []*c04Signal) {
 			if items > 0 {
 				for _, max := range c04ByteLadder(sig, shs) {
 					run(c04Case{Signal: sig.Name, Sizer: "bytes", Max: max, Shapes: shs})
+				}
+				// items without any content ("empty containers" all the way down): two framing bytes each
+				if len(seq) == 1 {
+					for _, max := range c04ByteLadderF(sig, shs, c04Blank) {
+						run(c04Case{Signal: sig.Name, Sizer: "bytes", Max: max, Shapes: shs, Fat: c04Blank})
+					}
 				}
 				// one fat item: a single item larger than max
 				if len(seq) <= 2 {
